@@ -1,68 +1,146 @@
-import Glom.Lemmas.C16
+import Glom.Lemmas.C16F10
+import Glom.Lemmas.C16Heap
 import Glom.Model.C16Env
 /-
   C16 — Group builds exactly the buckets and aggregates of a hand-written loop.
 
-  Property theorems only; helper lemmas are in `Glom/Lemmas/C16.lean`.
+  Property theorems only; helper lemmas are in `Glom/Lemmas/C16*.lean`.
 
   `groupEval g items` is the model of `glom(items, Group(g))`: Group.glomit's item loop
   around the GROUP dispatcher, threading the one accumulator tree whose keys are
   id(spec) ints, spec objects and bucket keys all in one namespace, with the STOP marks
   and the `done` flag (Glom/Model/C16.lean).  `valOfTop g items` is the dictionary a
   hand-written bucketing loop builds (Glom/Spec/C16.lean).  The theorems are for ALL
-  spec trees (any number of key levels), ALL item sequences of any length and all key /
-  value functions of the catalogue.
+  spec trees (any number of key levels, Limit / First / Sample / aggregator classes at any
+  depth, nested Groups), ALL item sequences of any length and all key / value functions of
+  the catalogue (T-expression chains, class objects, lambdas).
 
   FULL STATEMENT (what the property says):
       ∀ g items, wfRun g items → groupEval g items = .ok (valOfTop g items)
   It is FALSE for the code that exists: `c16_F9_counterexample` and
   `c16_F10_counterexample` disprove it on concrete inputs on which the real glom
   behaves exactly as the model (the correspondence runs both witnesses on every check).
-  What is proved is `c16_eq_reference_partial`, under the two hypotheses the proof forces:
-      H1' `stopFree`  : no STOP source (First, Limit, a function saying STOP) — the code
-                        stops a whole key level when one bucket's leaf says STOP (F9);
-      H2  `keysApart` : no bucket key equals id() of its spec dict or is its key-spec
-                        object — the tree keeps all three kinds of keys in one dict (F10);
-  plus the top-level STOP sources the property names: `c16_top_limit`, `c16_top_first`.
-  (H1' is stronger than the H1 of the design — "no STOP-producing leaf under a key level
-  whose key takes more than one value": a STOP source under a key level with a single
-  key value is not covered by a theorem, only by the correspondence.)
-  `wfRun` (no user function raises, keys hashable, aggregators meet operands they
-  handle) delimits the runs the property talks about.
+
+  What is proved instead says EXACTLY what the code computes:
+      `c16_exact`:  groupEval g items = .ok (implTop g items)
+  — the hand-written loop over the items before the first STOP event (`cutEvent`), under
+      H2' `slotApart`  : no bucket key equals id() of its spec dict — the tree keeps ids,
+                         spec objects and bucket keys in one dict (F10);
+      `noSkipBelow`    : no SKIP-producing bare function below a key level (the ordering of
+                         keys is then by first value: outside the reference);
+      `wfRun`          : no user function raises, keys hashable, aggregators meet operands
+                         they handle (the runs the property talks about).
+  So the property holds on a run iff cutting it at the first STOP event makes no difference
+  to the hand-written loop (`c16_holds_iff_cut_invariant`), in particular
+      H1'' `eventFree` : no STOP EVENT — First, Limit(n), STOP-producing functions may be
+                         anywhere as long as they do not fire (`c16_eq_reference_partial`),
+  and with a top-level `Limit(n)` / `First` (`c16_top_limit`, `c16_top_first`); F9 is the
+  remaining case: a STOP from ONE bucket's leaf ends the evaluation for ALL buckets.
 -/
 namespace Glom.Props.C16
 open Glom.C16
 
-/-- **Facts obligation** (re-checked on every run): the 113 statements of Group.glomit, GROUP,
-    First/Avg/Max/Min.agg, Limit.glomit/__init__, Fold._agg, Merge._agg and the aggregator entry
-    of Fold.glomit, regenerated from /repo's source, are exactly the statements the model
-    transcribes; the aggregator classes keep no state of their own (`__slots__`). -/
+/-- **Facts obligation** (re-checked on every run): the statements of Group.glomit, GROUP,
+    First/Avg/Max/Min/Sample.agg, Limit.glomit/__init__, Fold._agg, Merge._agg and the aggregator
+    entry of Fold.glomit, regenerated from /repo's source, are exactly the statements the model
+    transcribes; the aggregator classes keep no state of their own (`__slots__`); grouping.py has no
+    module-level binding besides its two sentinels and no `global` statement (nothing to remember
+    anything in between two calls of GROUP / two evaluations); every arithmetic arm of `_t_eval`
+    rebinds `cur` to the value of an expression (no augmented assignment). -/
 theorem c16_facts_wf : genWF = true := by decide
 
-/-- **Group = the hand-written bucketing loop** (partial: H1', H2).  For every spec tree, every
-    item sequence: keys in order of first occurrence, values in encounter order, SKIP drops
-    an item, every leaf equals its Python reference over the items routed to it. -/
+/-- **What Group computes, exactly** (H2', no SKIP leaf below a key level): for every spec tree,
+    every item sequence — the dictionary of the hand-written bucketing loop (keys in order of
+    first occurrence, values in encounter order, SKIP drops an item, every leaf equal to its
+    Python reference over the items routed to it) over the items BEFORE THE FIRST STOP EVENT.
+    This is the behaviour behind known finding F9, as a theorem: any other deviation from the
+    hand-written loop is not the model's. -/
+theorem c16_exact (g : GSpec) (items : List V)
+    (hwf : wfRun g items = true) (h2 : slotApart g items = true) (hns : noSkipBelow false g items = true) :
+    groupEval g items = .ok (implTop g items) :=
+  groupEval_exact g items ⟨hwf, h2, hns⟩
+
+/-- **the property holds on a run exactly when the cut makes no difference**: the observation
+    passes the comparison with the hand-written loop iff `implTop g items` and `valOfTop g items`
+    are the same value -/
+theorem c16_holds_iff_cut_invariant (g : GSpec) (items : List V)
+    (hwf : wfRun g items = true) (h2 : slotApart g items = true) (hns : noSkipBelow false g items = true) :
+    (observe (groupEval g items) == .ok (valOfTop g items)) = veq (implTop g items) (valOfTop g items) := by
+  rw [groupEval_exact g items ⟨hwf, h2, hns⟩]; rfl
+
+/-- **Group = the hand-written bucketing loop** (partial: H1'', H2').  For every spec tree, every
+    item sequence on which nothing says STOP (First, Limit(n), STOP-producing functions may be
+    anywhere in the spec — they just do not fire — also in nested Groups): keys in order of first
+    occurrence, values in encounter order, SKIP drops an item, every leaf equals its Python
+    reference over the items routed to it. -/
 theorem c16_eq_reference_partial (g : GSpec) (items : List V)
+    (hwf : wfRun g items = true) (h2 : slotApart g items = true) (hns : noSkipBelow false g items = true)
+    (h1 : eventFree g items = true) (h1n : nestedFree g items = true) :
+    groupEval g items = .ok (valOfTop g items) :=
+  groupEval_spec g items ⟨hwf, h2, hns⟩ h1 h1n
+
+/-- the earlier, stronger hypotheses — H1' no STOP SOURCE anywhere in the spec (no First, no Limit,
+    no function that says STOP on an item), H2 keys apart from id(spec dict) AND from the key-spec
+    object — imply the present ones: nothing was lost -/
+theorem c16_eq_reference_of_stopFree (g : GSpec) (items : List V)
     (hwf : wfRun g items = true) (h1 : stopFree false g items = true) (h2 : keysApart g items = true) :
     groupEval g items = .ok (valOfTop g items) :=
-  groupEval_spec g items ⟨hwf, h1, h2⟩
+  groupEval_spec g items
+    ⟨hwf, slotApart_of_keysApart g items h2, noSkipBelow_of_stopFree g false items h1⟩
+    (eventFree_of_stopFree g false items h1) (nestedFree_of_stopFree g false items h1)
 
 /-- the step form of the same fact: with the tree the earlier items left, one more item
     yields the reference over all items so far and the tree of all items so far — so a
     sub-tree is exactly the state of the items routed to that bucket (no carry-over
-    between buckets) -/
+    between buckets) — or STOP, exactly when the hand-written loop is told STOP -/
 theorem c16_step (g : GSpec) (below : Bool) (its : List V) (x : V)
-    (hwf : wfRun g (its ++ [x]) = true) (h1 : stopFree below g (its ++ [x]) = true)
-    (h2 : keysApart g (its ++ [x]) = true) :
-    gstep g x (treeOf g its) = .ok (valOf g (its ++ [x]), treeOf g (its ++ [x])) :=
-  gstep_spec g below its x ⟨hwf, h1, h2⟩
+    (hwf : wfRun g (its ++ [x]) = true) (h2 : slotApart g (its ++ [x]) = true)
+    (hns : noSkipBelow below g (its ++ [x]) = true) (hef : eventFree g its = true) :
+    (stopsAt g its x = false →
+      gstep g x (treeOf g its) = .ok (valOfC true g (its ++ [x]), treeOf g (its ++ [x]))) ∧
+    (stopsAt g its x = true → ∃ t, gstep g x (treeOf g its) = .ok (.stop, t)) :=
+  gstep_both g below its x ⟨hwf, h2, hns⟩ hef
+
+/-- **per-bucket independence**: the result of a key level is the bucket map of the hand-written
+    loop, and the entry under key `k` is the reference of the value spec over exactly the items
+    whose key equals `k` (Python key equality), in encounter order — `routed key k items` -/
+theorem c16_bucket_lookup (id kid : Nat) (key : Fn) (sub : GSpec) (items : List V)
+    (hwf : wfRun (.dict id kid key sub) items = true) (h2 : slotApart (.dict id kid key sub) items = true)
+    (hns : noSkipBelow false (.dict id kid key sub) items = true)
+    (h1 : eventFree (.dict id kid key sub) items = true) (h1n : nestedFree (.dict id kid key sub) items = true) :
+    groupEval (.dict id kid key sub) items = .ok (.dict ((buckets key items).map (fun b => (b.1, valOf sub b.2)))) ∧
+    ∀ k, dget ((buckets key items).map (fun b => (b.1, valOf sub b.2))) k =
+      if (routed key k items).isEmpty then none else some (valOf sub (routed key k items)) := by
+  refine ⟨?_, fun k => dget_buckets key (valOf sub) items k⟩
+  rw [groupEval_spec _ items ⟨hwf, h2, hns⟩ h1 h1n]
+  congr 1
+  cases items with
+  | nil => rfl
+  | cons y ys => simp only [valOfTop, emptyOr, List.isEmpty_cons, Bool.false_eq_true, if_false]; exact valOfC_dict false id kid key sub _ h1
+
+/-- … so items routed to OTHER buckets do not matter: two runs that route the same items to `k`
+    (whatever else they contain, in whatever order) have the same entry under `k` -/
+theorem c16_bucket_independent (id kid : Nat) (key : Fn) (sub : GSpec) (items items' : List V) (k : V)
+    (hwf : wfRun (.dict id kid key sub) items = true) (h2 : slotApart (.dict id kid key sub) items = true)
+    (hns : noSkipBelow false (.dict id kid key sub) items = true)
+    (h1 : eventFree (.dict id kid key sub) items = true) (h1n : nestedFree (.dict id kid key sub) items = true)
+    (hwf' : wfRun (.dict id kid key sub) items' = true) (h2' : slotApart (.dict id kid key sub) items' = true)
+    (hns' : noSkipBelow false (.dict id kid key sub) items' = true)
+    (h1' : eventFree (.dict id kid key sub) items' = true) (h1n' : nestedFree (.dict id kid key sub) items' = true)
+    (hsame : routed key k items = routed key k items') :
+    ∃ es es', groupEval (.dict id kid key sub) items = .ok (.dict es) ∧
+      groupEval (.dict id kid key sub) items' = .ok (.dict es') ∧ dget es k = dget es' k := by
+  obtain ⟨e1, l1⟩ := c16_bucket_lookup id kid key sub items hwf h2 hns h1 h1n
+  obtain ⟨e2, l2⟩ := c16_bucket_lookup id kid key sub items' hwf' h2' hns' h1' h1n'
+  exact ⟨_, _, e1, e2, by rw [l1 k, l2 k, hsame]⟩
 
 /-- **top-level Limit(n)**: `Group(Limit(n, sub))` equals the reference, which for `n ≥ 1` is
     `sub` over the first `n` items (`c16_top_limit_take`) -/
 theorem c16_top_limit (oid n : Nat) (sub : GSpec) (items : List V)
-    (hwf : wfRun sub items = true) (h1 : stopFree false sub items = true) (h2 : keysApart sub items = true) :
+    (hwf : wfRun sub items = true) (h2 : slotApart sub items = true) (hns : noSkipBelow false sub items = true)
+    (h1 : eventFree sub items = true) (h1n : nestedFree sub items = true) :
     groupEval (.limit oid n sub) items = .ok (valOfTop (.limit oid n sub) items) :=
-  limit_spec oid n sub items ⟨hwf, h1, h2⟩
+  limit_spec oid n sub items ⟨hwf, h2, hns⟩ h1 h1n
 
 theorem c16_top_limit_take (oid n : Nat) (sub : GSpec) (items : List V) (hn : n ≠ 0) (hne : items ≠ []) :
     valOfTop (.limit oid n sub) items = valOfTop sub (items.take n) := by
@@ -74,13 +152,25 @@ theorem c16_top_limit_take (oid n : Nat) (sub : GSpec) (items : List V) (hn : n 
       | zero => exact absurd rfl hn
       | succ m => simp
   have h3 : (n == 0) = false := by simpa using hn
-  simp [valOfTop, emptyOr, valOf, h1, h2, h3]
+  simp [valOfTop, emptyOr, valOfC, h1, h2, h3]
 
 /-- **top-level First**: the first item (None when there is none) -/
-theorem c16_top_first (oid : Nat) (items : List V) (hp : ∀ x ∈ items, isStop x = false) :
-    groupEval (.agg oid .first) items = .ok (items.head?.getD .none) := by
-  rw [first_spec oid items hp]
-  cases items <;> simp [valOfTop, emptyOr, valOf, refAgg, emptyOf]
+theorem c16_top_first (oid : Nat) (items : List V) (hp : ∀ x ∈ items, isStop x = false ∧ isSkip x = false) :
+    groupEval (.agg oid .first) items = .ok (items.head?.getD .none) :=
+  first_spec oid items hp
+
+/-- **Sample(size)** with its random source as a parameter (`tbl`: `random.randint(0, n)` is
+    `draw tbl n`): the result is the reservoir of the hand-written loop — for EVERY table — so it
+    holds `min size n` of the items, only items, and all of them while they fit -/
+theorem c16_sample (oid size : Nat) (tbl : List Nat) (items : List V) :
+    groupEval (.agg oid (.sample size tbl)) items =
+      .ok (if items.isEmpty then .none else .list (refSample size tbl items).2) ∧
+    (refSample size tbl items).2.length = min size items.length ∧
+    (∀ v ∈ (refSample size tbl items).2, v ∈ items) ∧
+    (items.length ≤ size → (refSample size tbl items).2 = items) := by
+  refine ⟨?_, refSample_length size tbl items, refSample_mem size tbl items, refSample_small size tbl items⟩
+  rw [groupEval_spec _ items ⟨rfl, rfl, rfl⟩ (sample_eventFree oid size tbl items) rfl]
+  cases items <;> rfl
 
 /-- **fresh tree per evaluation, also when nested**: a Group object in value position
     neither reads nor writes the enclosing evaluation's tree — whatever that tree holds,
@@ -95,25 +185,89 @@ theorem c16_fresh (g : GSpec) (xs : List V) (tree : List (V × V)) :
     cases loopWith (gstep g) xs (emptyOf g) [] <;> rfl
 
 /-- **Checker theorem** — the form in which the property is evaluated on the implementation's
-    observations by the correspondence driver: on every run the theorems cover, the model's
-    own observation passes (one spec object, any number of runs, in any order). -/
-theorem c16_model_checks (g : GSpec) (runs : List (List V))
-    (h : ∀ r ∈ runs, wfRun g r = true → covered g r = true) :
-    checkC16 g runs (runs.map (fun r => observe (groupEval g r))) = true :=
-  check_model g runs h
+    observations by the correspondence driver: for every HISTORY of evaluations in one process
+    (any spec objects, any target objects, in any order, any number of times) in which each
+    evaluation is covered, the model's own observations pass: the result is the hand-written
+    loop's, the target is what it was. -/
+theorem c16_model_checks (specs : List GSpec) (targets : List (List V)) (evals : List (Nat × Nat))
+    (hidx : ∀ e ∈ evals, e.1 < specs.length ∧ e.2 < targets.length)
+    (h : ∀ e ∈ evals, ∀ g its, specs[e.1]? = some g → targets[e.2]? = some its →
+      wfRun g its = true → covered g its = true) :
+    checkC16 specs targets evals (observeHistory specs targets evals) = true :=
+  check_model specs targets evals hidx h
+
+/-- **histories**: an evaluation in the middle of any history of evaluations (of any spec objects on
+    any target objects) is the stand-alone evaluation: nothing is carried from one evaluation to
+    the next, in whatever order they run -/
+theorem c16_history_independent (specs : List GSpec) (targets : List (List V)) (pre post : List (Nat × Nat))
+    (e : Nat × Nat) :
+    (evalHistory specs targets (pre ++ e :: post))[pre.length]? = (evalHistory specs targets [e])[0]? := by
+  rw [evalHistory_append]
+  have hl : (evalHistory specs targets pre).length = pre.length := by simp [evalHistory]
+  rw [List.getElem?_append_right (by omega), hl]
+  simp [evalHistory]
+
+/-! ### the target is not touched: T-expressions on a store of mutable cells -/
+
+open Glom.C16.Heap in
+/-- **evaluating a T-expression never writes an existing object** and computes what the
+    value-level model (`tEval`, used by `gstep`) says: on every acyclic store, for every chain of
+    subscriptions and arithmetic operators — every cell that existed is what it was (the store only
+    grows: `+`, `*`, `|` allocate), every element denotes the value it denoted, and the result
+    denotes `tEval ops` of the value of the operand.  (This is why an evaluation is a function of
+    the VALUES of the items, and why the checker may demand the target back unchanged.) -/
+theorem c16_texpr_frame (ops : List TOp) (st st' : Store) (cur cur' : Elem)
+    (hac : acyclic st) (hcur : elemLt st.length cur) (h : tEvalH st cur ops = .ok (st', cur')) :
+    (∀ a, a < st.length → st'[a]? = st[a]?) ∧
+    (∀ e, elemLt st.length e → valE st' e = valE st e) ∧
+    tEval ops (valE st cur) = .ok (valE st' cur') := by
+  have := tEvalH_refines ops st cur hac hcur
+  rw [h] at this
+  obtain ⟨hv, ⟨ex, rfl⟩, _⟩ := this
+  exact ⟨fun a ha => List.getElem?_append_left ha, fun e he => valE_ext hac ex he, hv⟩
+
+open Glom.C16.Heap in
+/-- … and it fails exactly when the value-level evaluation fails -/
+theorem c16_texpr_error (ops : List TOp) (st : Store) (cur : Elem) (e : Err)
+    (hac : acyclic st) (hcur : elemLt st.length cur) (h : tEvalH st cur ops = .error e) :
+    tEval ops (valE st cur) = .error e := by
+  have := tEvalH_refines ops st cur hac hcur
+  rw [h] at this
+  exact this
+
+open Glom.C16.Heap in
+-- the loop with AUGMENTED assignment (`cur += arg`, what `c16_facts_wf` excludes) does write the
+-- operand: `T + [9]` on the item `[1]` leaves the item `[1, 9]`
+example : ∃ st' cur', tstepInPlace [.list [.imm (.int 1)]] (.ref 0) (.add (.list [.int 9])) = .ok (st', cur') ∧
+    st'[0]? = some (.list [.imm (.int 1), .imm (.int 9)]) := ⟨_, _, rfl, rfl⟩
+open Glom.C16.Heap in
+-- … the loop that exists allocates: the item is still `[1]`, the result is the new cell 1
+example : tstep [.list [.imm (.int 1)]] (.ref 0) (.add (.list [.int 9])) =
+    .ok ([.list [.imm (.int 1)], .list [.imm (.int 1), .imm (.int 9)]], .ref 1) := rfl
+open Glom.C16.Heap in
+-- non-vacuity: an acyclic store with a shared sub-list (cell 0 occurs in cells 1 and 2)
+example : acyclic [.list [.imm (.int 4)], .dict [(.str "w", .ref 0)], .dict [(.str "w", .ref 0)]] := by
+  intro a cell h
+  match a, h with
+  | 0, h => simp at h; subst h; intro e he; simp at he; subst he; trivial
+  | 1, h => simp at h; subst h; intro e he; simp at he; subst he; exact Nat.zero_lt_one
+  | 2, h => simp at h; subst h; intro e he; simp at he; subst he; exact Nat.zero_lt_two
+  | n + 3, h => simp at h
 
 /-! ### the full statement is false: the two known defects, in the model -/
 
 /-- F9 — `glom([0, 2, 1], Group({T % 2: First()}))`.  A hand-written loop gives `{0: 0, 1: 1}`;
-    the code gives `{0: 0}`: when the bucket of key 0 says STOP on its second item, GROUP
-    marks the whole KEY-SPEC as stopped, so bucket 1 never sees an item.  H2 holds, H1' fails. -/
+    the code gives `{0: 0}`: when the bucket of key 0 says STOP on its second item, the STOP
+    travels up to Group.glomit, which returns what it had: bucket 1 never sees an item.
+    H2' holds, H1'' fails; `implTop` is what comes out (`c16_exact`). -/
 theorem c16_F9_counterexample :
     let g : GSpec := .dict 0 1 (.mod 2) (.agg 2 .first)
     let items : List V := [.int 0, .int 2, .int 1]
-    wfRun g items = true ∧ keysApart g items = true ∧ stopFree false g items = false ∧
+    wfRun g items = true ∧ keysApart g items = true ∧ eventFree g items = false ∧
     (observe (groupEval g items) == .ok (.dict [(.int 0, .int 0)])) = true ∧
+    (implTop g items == .dict [(.int 0, .int 0)]) = true ∧
     (valOfTop g items == .dict [(.int 0, .int 0), (.int 1, .int 1)]) = true ∧
-    checkC16 g [items] [observe (groupEval g items)] = false := by
+    checkC16 [g] [items] [(0, 0)] (observeHistory [g] [items] [(0, 0)]) = false := by
   decide
 
 /-- F10 — `spec = {}; spec[lambda t: id(spec) if t == 2 else t] = [T]; glom([1, 2, 3], Group(spec))`.
@@ -121,39 +275,92 @@ theorem c16_F9_counterexample :
     `{id(the [T] list): [2], 3: [3]}`: the bucket key `id(spec)` lands in the tree slot that
     holds the level's own `acc` dict, `tree[key] = {}` replaces it, and from the next item on
     the bucket's SUB-TREE is taken for `acc` (item 1 is lost, a foreign key appears).
-    H1' holds, H2 fails.  (The source carries a TODO for it.) -/
+    H1'' holds, H2' fails.  (The source carries a TODO for it.) -/
 theorem c16_F10_counterexample :
     let g : GSpec := .dict 0 1 (.idIf (.int 2) 0) (.list 2 .ident)
     let items : List V := [.int 1, .int 2, .int 3]
-    wfRun g items = true ∧ stopFree false g items = true ∧ keysApart g items = false ∧
+    wfRun g items = true ∧ eventFree g items = true ∧ slotApart g items = false ∧
     (observe (groupEval g items) == .ok (.dict [(idKey 2, .list [.int 2]), (.int 3, .list [.int 3])])) = true ∧
     (valOfTop g items ==
       .dict [(.int 1, .list [.int 1]), (idKey 0, .list [.int 2]), (.int 3, .list [.int 3])]) = true ∧
-    checkC16 g [items] [observe (groupEval g items)] = false := by
+    checkC16 [g] [items] [(0, 0)] (observeHistory [g] [items] [(0, 0)]) = false := by
   decide
 
+/-- **known finding F10, exactly** (a key level at the top, one colliding item):
+    `items = pre ++ [c] ++ post`, the key of `c` is `id(spec dict)`, no other key is; no STOP event
+    before / after; the keys of `post` are not keys of the colliding bucket's sub-tree.  If `c` is the
+    LAST item the result is the hand-written loop's.  Otherwise it is the entries of the SUB-TREE of
+    `c`'s bucket (`treeOf sub [c]`: the accumulators of the value spec after `c` alone, keyed by
+    id() / spec object) followed by the buckets of `post` ALONE: everything grouped before `c`,
+    and `c`'s own bucket, are gone.  Any other outcome of such a run is not the model's. -/
+theorem c16_F10_exact (id kid : Nat) (key : Fn) (sub : GSpec) (pre post : List V) (c : V)
+    (hwf : wfRun (.dict id kid key sub) (pre ++ c :: post) = true)
+    (hkc : key.val c = idKey id)
+    (hsa : ∀ y ∈ pre ++ post, keyEq (idKey id) (key.val y) = false)
+    (hsasub : slotApart sub (pre ++ c :: post) = true)
+    (hns : noSkipBelow true sub (pre ++ c :: post) = true)
+    (hefpre : eventFree (.dict id kid key sub) (pre ++ [c]) = true)
+    (hefpost : eventFree (.dict id kid key sub) post = true)
+    (ha0 : ∀ y ∈ post, dhas (treeOf sub [c]) (key.val y) = false) :
+    groupEval (.dict id kid key sub) (pre ++ c :: post) =
+      .ok (if post.isEmpty then
+             .dict ((buckets key pre).map (fun b => (b.1, valOfC true sub b.2)) ++ [(idKey id, valOfC true sub [c])])
+           else .dict (treeOf sub [c] ++ (buckets key post).map (fun b => (b.1, valOfC true sub b.2)))) :=
+  f10_exact id kid key sub pre post c hwf hkc hsa hsasub hns hefpre hefpost ha0
+
 /-! ### non-vacuity: concrete non-trivial inputs meet every hypothesis -/
+
+-- the F10 witness meets the hypotheses of `c16_F10_exact` (pre = [1], c = 2, post = [3]): the theorem
+-- applies to it, and its closed form is the observed `{id(the [T] list): [2], 3: [3]}`
+example : groupEval (.dict 0 1 (.idIf (.int 2) 0) (.list 2 .ident)) ([.int 1] ++ .int 2 :: [.int 3]) =
+    .ok (.dict (treeOf (.list 2 .ident) [.int 2] ++
+        (buckets (.idIf (.int 2) 0) [.int 3]).map (fun b => (b.1, valOfC true (.list 2 .ident) b.2)))) :=
+  c16_F10_exact 0 1 (.idIf (.int 2) 0) (.list 2 .ident) [.int 1] [.int 3] (.int 2) (by decide) rfl
+    (by intro y hy; simp at hy; rcases hy with rfl | rfl <;> rfl) (by decide) (by decide) (by decide) (by decide)
+    (by intro y hy; simp at hy; subst hy; rfl)
+example : (V.dict (treeOf (.list 2 .ident) [.int 2] ++
+      (buckets (.idIf (.int 2) 0) [.int 3]).map (fun b => (b.1, valOfC true (.list 2 .ident) b.2))) ==
+    .dict [(idKey 2, .list [.int 2]), (.int 3, .list [.int 3])]) = true := by decide
+-- with the collision LAST the result is the hand-written loop's
+example : (observe (groupEval (.dict 0 1 (.idIf (.int 2) 0) (.list 2 .ident)) [.int 1, .int 2]) ==
+    .ok (valOfTop (.dict 0 1 (.idIf (.int 2) 0) (.list 2 .ident)) [.int 1, .int 2])) = true := by decide
 
 /-- `Group({T % 2: {T % 3: [T]}})`: two key levels -/
 private def exSpec : GSpec := .dict 0 1 (.mod 2) (.dict 2 3 (.mod 3) (.list 4 .ident))
 private def exItems : List V := [.int 1, .int 2, .int 3, .int 4, .int 7, .int 8]
 
-example : wfRun exSpec exItems = true ∧ stopFree false exSpec exItems = true ∧ keysApart exSpec exItems = true := by
+example : wfRun exSpec exItems = true ∧ slotApart exSpec exItems = true ∧ noSkipBelow false exSpec exItems = true ∧
+    eventFree exSpec exItems = true := by
   decide
 example : (valOfTop exSpec exItems ==
     .dict [(.int 1, .dict [(.int 1, .list [.int 1, .int 7]), (.int 0, .list [.int 3])]),
            (.int 0, .dict [(.int 2, .list [.int 2, .int 8]), (.int 1, .list [.int 4])])]) = true := by decide
 -- SKIP-producing key function, aggregator leaf
 example : let g : GSpec := .dict 0 1 (.keySkip 3) (.agg 2 .max)
-    wfRun g exItems = true ∧ stopFree false g exItems = true ∧ keysApart g exItems = true ∧
+    wfRun g exItems = true ∧ eventFree g exItems = true ∧ slotApart g exItems = true ∧
     (valOfTop g exItems == .dict [(.int 1, .int 7), (.int 2, .int 8)]) = true := by decide
--- covered top-level STOP sources
+-- covered STOP sources: at the top, and below key levels where they do not fire / do not matter
 example : covered (.limit 9 2 exSpec) exItems = true ∧ covered (.agg 0 .first) exItems = true := by decide
 example : (valOfTop (.limit 9 2 exSpec) exItems ==
     .dict [(.int 1, .dict [(.int 1, .list [.int 1])]), (.int 0, .dict [(.int 2, .list [.int 2])])]) = true := by decide
--- re-use of one spec object on two item lists, and nesting: the checker's hypothesis is met
-example : ∀ r ∈ [exItems, [.int 5, .int 6]], wfRun exSpec r = true → covered exSpec r = true := by decide
--- `c16_top_first` needs items that are not the STOP sentinel itself: Group(First()) on [STOP] is None
-example : (observe (groupEval (.agg 0 .first) [.stop]) == .ok .none) = true := by decide
+example : let g : GSpec := .dict 0 1 (.mod 2) (.limit 5 3 (.list 2 .ident))      -- Limit(3) below a key level
+    eventFree g exItems = true ∧ covered g exItems = true ∧
+    (valOfTop g exItems == .dict [(.int 1, .list [.int 1, .int 3, .int 7]), (.int 0, .list [.int 2, .int 4, .int 8])]) = true := by
+  decide
+example : let g : GSpec := .dict 0 1 (.const (.str "k")) (.agg 2 .first)        -- First under a one-bucket key level
+    eventFree g exItems = false ∧ covered g exItems = true := by decide
+-- a bucket key that IS the key-spec object: H2 (`keysApart`) fails, H2' holds, the run is covered
+example : let g : GSpec := .dict 0 1 (.objIf (.int 2) 1) (.list 2 .ident)
+    keysApart g exItems = false ∧ covered g exItems = true := by decide
+-- re-use of one spec object on two item lists, a second spec object (an aggregator CLASS) in between:
+-- every evaluation of the history is covered, and the history passes the checker
+example : covered exSpec exItems = true ∧ covered exSpec [.int 5, .int 6] = true ∧
+    covered (.agg 0 .clsLast) exItems = true ∧ covered (.agg 0 .clsLast) [.int 5, .int 6] = true := by decide
+example : checkC16 [exSpec, .agg 0 .clsLast] [exItems, [.int 5, .int 6]] [(0, 0), (1, 1), (0, 1), (0, 0)]
+    (observeHistory [exSpec, .agg 0 .clsLast] [exItems, [.int 5, .int 6]] [(0, 0), (1, 1), (0, 1), (0, 0)]) = true := by
+  decide
+-- a top-level First needs items that are not the sentinels themselves: Group(First()) on [STOP] is None
+example : (observe (groupEval (.agg 0 .first) [.stop]) == .ok .none) = true ∧
+    wfRun (.agg 0 .first) [.stop] = false := by decide
 
 end Glom.Props.C16
